@@ -45,7 +45,8 @@ def sg_key(W: World, real: bool) -> Any:
 
 def spend_twice(ncalls: int = 2, variant: str = "plain", twin: bool = False, real: bool = False):
     """variant: "plain"; "consolidated" = the head is one block further, in which two outputs of one wallet key were spent by one
-    confirmed transaction; "reorg" = the wallet also owns the reward key and the second of three requests is made while the
+    confirmed transaction; "overtaken" = one more block on the sibling fork made it the head before the requests;
+    "reorg" = the wallet also owns the reward key and the second of three requests is made while the
     sibling fork is the head: an earlier spend used P's reward output, then the heads are F, P (, P)."""
     import skepticoin.wallet  # noqa  (must be loaded before the ideal ecdsa is installed)
     W = World(real=real, served_head="P")
@@ -87,6 +88,13 @@ def spend_twice(ncalls: int = 2, variant: str = "plain", twin: bool = False, rea
             q = W.make_tx(tok(TX, 26), [(0, 0, 0), (2, 0, 0)], [(v0 + v2, 0)], pv, cbq.hash(), None)     # (T10,0)+(T11,0), both K0 -> K0
             cs = cs.add_block_no_validation(W.candidate(cs, [cbq, q], 3000))
             head = cs.current_chain_hash
+            states = [cs, cs, cs]
+        elif variant == "overtaken":
+            # the sibling fork overtakes with one more block (paying a wallet key): the requests are made on the new branch
+            cbq = W.env.coinbase(W.h, [dt.Output(3, W.keys[1])], tok(TX, 25))
+            cs = cs.add_block_no_validation(W.candidate(cs, [cbq], 3000, parent=W.F))
+            if cs.current_chain_hash == W.P.hash():
+                return False
             states = [cs, cs, cs]
         elif variant == "reorg":
             on_f = W.env.cstate.CoinState(cs.block_by_hash, cs.unspent_transaction_outs_by_hash, cs.block_by_height_by_hash, cs.heads, W.F.hash())
@@ -168,6 +176,7 @@ def obligations(tier: str, known: List[str]) -> List[Ob]:
     o = Ob("two-successive-requests", C_OK + "; " + C_FAIL, "spend_twice", {"ncalls": 2}, timeout=T)
     obs = [o, twin_of(o, timeout=300)]
     obs.append(Ob("requests-after-a-confirmed-consolidation", C_OK + "; " + C_FAIL, "spend_twice", {"ncalls": 2, "variant": "consolidated"}, timeout=T))
+    obs.append(Ob("requests-after-the-sibling-fork-overtook", C_OK + "; " + C_FAIL, "spend_twice", {"ncalls": 2, "variant": "overtaken"}, timeout=T))
     obs.append(Ob("requests-across-a-reorganisation", C_OK + "; " + C_FAIL, "spend_twice", {"ncalls": 2, "variant": "reorg"}, timeout=2 * T))
     if tier == "thorough":
         obs.append(Ob("three-successive-requests", C_OK + "; " + C_FAIL, "spend_twice", {"ncalls": 3}, timeout=3000))
